@@ -369,7 +369,9 @@ def recons() -> list[Entry]:
         E.append(Entry(f"KIKINet/{im}-{ks}", "kikinet", "recon",
                        lambda im=im, ks=ks: KIKINet(fwd, bwd, image_model_architecture=im, kspace_model_architecture=ks,
                                                    num_iter=2, **kkw),
-                       "image", _c_kms, min_hw=both(pm[im], dm[ks]), tags=(im.lower(), ks.lower())))
+                       "image", _c_kms, min_hw=both(pm[im], dm[ks]), tags=(im.lower(), ks.lower()),
+                       # a normalised U-Net on raw k-space amplifies float32 rounding (measured 7e-6 between batched/single kernels)
+                       tol=1e-4 if "NORMUNET" in (im, ks) else 1e-5))
     E.append(Entry("KIKINet/normalize", "kikinet", "recon",
                    lambda: KIKINet(fwd, bwd, image_model_architecture="UNET", kspace_model_architecture="CONV", num_iter=2,
                                    normalize=True, **kkw),
@@ -380,7 +382,7 @@ def recons() -> list[Entry]:
     for norm in (False, True):
         E.append(Entry(f"JointICNet/{'normunet' if norm else 'unet'}", "jointicnet", "recon",
                        lambda norm=norm: JointICNet(fwd, bwd, num_iter=2, use_norm_unet=norm, **jkw), "image", _c_kms,
-                       min_hw=nu if norm else u2, tags=("normunet" if norm else "unet",), tol=1e-4))
+                       min_hw=nu if norm else u2, tags=("normunet" if norm else "unet",)))
     # ---- MultiDomainNet
     for std in (True, False):
         E.append(Entry(f"MultiDomainNet/{'std' if std else 'nostd'}", "multidomainnet", "recon",
